@@ -25,10 +25,10 @@ ASSUMPTIONS = ["termination and in-bounds are THEOREMS only for the modelled ker
                "out-of-bounds reads in interpreted mode wrap silently: they are caught indirectly, by the other properties' "
                "exact correspondence with models in which an out-of-range read returns a default value",
                "compiled (JIT) execution is out of scope (C07 not applicable); NUMBA_BOUNDSCHECK is therefore not used"]
-MUST_OK = {"vector_class_starts", "pfafstetter_upa_min_none", "region_bounds_ids", "basin_bounds_ids", "index_top_left", "add_pits_dup_use", "add_pits_dup_xy_use", "from_array_ldd_out", "from_array_d8_out", "from_array_d8", "from_array_nextxy", "from_array_infer"}       # valid arguments: any exception is a failure
+MUST_OK = {"basins_empty_list", "add_pits_empty_list", "vector_class_starts", "pfafstetter_upa_min_none", "region_bounds_ids", "basin_bounds_ids", "index_top_left", "add_pits_dup_use", "add_pits_dup_xy_use", "from_array_ldd_out", "from_array_d8_out", "from_array_d8", "from_array_nextxy", "from_array_infer"}       # valid arguments: any exception is a failure
 # arguments outside the documented domain: the documented ValueError / IndexError is the only acceptable outcome (points
 # exactly on the right / bottom edge of the raster lie outside its half-open cells: round-5 seed)
-MUST_RAISE = {"bad_shape", "bad_index", "bad_unit", "bad_direction", "index_right_edge", "index_bottom_edge", "path_xy_right_edge", "basins_xy_bottom_edge"}
+MUST_RAISE = {"bad_strord_type", "bad_shape", "bad_index", "bad_unit", "bad_direction", "index_right_edge", "index_bottom_edge", "path_xy_right_edge", "basins_xy_bottom_edge"}
 MUTATORS = {"add_pits", "repair_loops", "order_cells", "set_transform"}
 # operations whose documented domain includes networks with loops (everything that walks a path needs a loop-free one)
 LOOP_OK = {"order_walk", "order_sort", "rank", "isvalid", "idxs_pit", "nnodes", "n_upstream", "idxs_us_main", "ncells", "idxs_seq", "area",
@@ -187,6 +187,8 @@ def _build_ops(nr, nc, ds, rng):
         ("path_xy_right_edge", lambda f: f.path(xy=(np.array([float(nc)]), np.array([-0.5])))),
         ("basins_xy_bottom_edge", lambda f: f.basins(xy=(np.array([0.5, 0.5]), np.array([-0.5, -float(nr)])))),
         ("bad_shape", lambda f: f.accuflux(np.zeros((nr + 1, nc)))), ("bad_index", lambda f: f.path(idxs=np.array([n + 7]))),
+        ("bad_strord_type", lambda f: f.stream_order(type="shreve")),
+        ("basins_empty_list", lambda f: f.basins(idxs=[])), ("add_pits_empty_list", lambda f: (f.add_pits(idxs=[]), f.idxs_pit)),
         ("bad_unit", lambda f: f.upstream_area("furlong")), ("bad_direction", lambda f: f.fillnodata(I["data"], -9999, direction="sideways")),
     ]
     return ops, I
